@@ -182,8 +182,9 @@ func gateEngineCases(c *Ctx) {
 			_, e2 := acc.GetAssetCode(x.code)
 			// TransferAssetTx also asks the database-wide code -> issuer index, which the store's background writer fills some time after
 			// the block is stable (under load: later than the canonical account): without it the honest positive control is refused
-			_, e3 := n.DB.GetAssetCode(x.code)
-			if ok = e1 == nil && e2 == nil && e3 == nil; !ok {
+			// (a missing index entry reads as the zero address with a nil error)
+			is, e3 := n.DB.GetAssetCode(x.code)
+			if ok = e1 == nil && e2 == nil && e3 == nil && is != (common.Address{}); !ok {
 				time.Sleep(25 * time.Millisecond)
 			}
 		}
@@ -373,6 +374,25 @@ func gateEngineCases(c *Ctx) {
 		if err != nil {
 			c.Fail("c06/gate-engine/build-failed", fmt.Sprintf("control %s: %v", ctl.name, err), nil)
 			continue
+		}
+		// positive control of the VALIDATOR path (review R4): the block of properly signed txs, as built (gasUsed set), must
+		// pass TxProcessor.Process on a fresh manager -- otherwise 'refused' above would hold vacuously
+		{
+			am := account.NewManager(parent.Hash(), n.DB)
+			proc := transaction.NewTxProcessor(keyAddr(w.FounderKey), nodeChainID, parentLoader{n}, am, n.DB, n.DM)
+			res := Safe(func() string {
+				var vtxs types.Transactions
+				for _, x := range blk.Txs {
+					vtxs = append(vtxs, x.Clone())
+				}
+				_, e := proc.Process(blk.Header.Copy(), vtxs)
+				return fmt.Sprint(e)
+			})
+			if res != "<nil>" || len(blk.Txs) == 0 {
+				c.Fail("c06/authorised-refused/by-validator", fmt.Sprintf("positive control %s: TxProcessor.Process on the block of %d properly signed txs the miner path built: %s", ctl.name, len(blk.Txs), res), nil)
+			} else {
+				c.Count(fmt.Sprintf("c06:gate-engine:control-passes-validator:%s:%d-txs", ctl.name, len(blk.Txs)))
+			}
 		}
 		for _, x := range cs {
 			if !included(blk, x.tx) {
